@@ -69,7 +69,10 @@ void parallel_for_staticImpl(
     ssize_t maxThreads,
     bool wait,
     bool reuseExistingState,
-    uint32_t granularity = 1) {
+    uint32_t granularity,
+    IntegerT lastChunkEnd) {
+  // `lastChunkEnd` is where the last chunk ends: range.end, or beyond it when the last chunk also
+  // has to cover a sub-granularity tail (wait == false, see parallel_for).
   using size_type = typename ChunkedRange<IntegerT>::size_type;
 
   size_type numThreads = std::min<size_type>(taskSet.numPoolThreads() + 1, maxThreads);
@@ -101,7 +104,7 @@ void parallel_for_staticImpl(
       smallChunk,
       perfectlyChunked ? numThreads : static_cast<size_type>(chunking.transitionTaskIndex),
       range.start,
-      range.end};
+      lastChunkEnd};
 
   // Determine which chunk the calling thread should take for L2 locality.
   // If the caller is a pool thread with a ring, it takes the chunk matching
